@@ -82,8 +82,12 @@ def _assign_nodes(f, field, value=None):
             if value is None or render(kids(n)[1]) == value:
                 out.append(n)
         if is_call(n) and n["callee"]["name"] == "operator=" and "obj" in n and render(f.obj(n)) == field:
-            if value is None or render(f.args(n)[0]) == value:
+            if value is None or render(f.args(n)[0]) == value or (value == '""' and render(f.args(n)[0]) in ("std::basic_string()", "std::string()", "{}")):
                 out.append(n)
+        # the empty key spelled key.clear() / key.erase() / key.assign("")
+        if value == '""' and is_call(n) and "obj" in n and render(f.obj(n)) == field and (
+                (n["callee"]["name"] in ("clear", "erase") and not f.args(n)) or (n["callee"]["name"] == "assign" and [render(a) for a in f.args(n)] == ['""'])):
+            out.append(n)
     return out
 
 
@@ -223,7 +227,8 @@ def _protocol(f):
             b = cfg.stmt_block(n)
             for a in cfg.dom.get(b, ()):
                 for s in cfg.succ[a]:
-                    if s in cfg.dom.get(b, ()) or s == b:
+                    # the edge a->s holds at b only when it is the one way into s (and s dominates b)
+                    if (s in cfg.dom.get(b, ()) or s == b) and set(cfg.pred[s]) == {a}:
                         for t, tr, nd in e1.edge_facts(cfg, a, s):
                             if cfg.dominates(s, b) or s == b:
                                 facts.add((t, tr))
@@ -247,11 +252,12 @@ def _d3(chk, fb):
         for n in walk(f.body):
             if n["k"] == "DeclStmt":
                 for d in n["decls"]:
-                    if d.get("init") is not None and d["ty"] == "bool":
+                    if d.get("init") is not None and d["ty"] in ("bool", "const bool"):
                         names[d["name"]] = render(d["init"]).replace(f.params[0]["name"], "<pl>")
         p = set()
         for facts, act in _protocol(f):
-            p.add((frozenset((names.get(t, t), tr) for t, tr in facts), act))
+            # a named const flag also yields the fact of its initialiser: both spellings are mapped to the same text
+            p.add((frozenset((names.get(t, t).replace(f.params[0]["name"], "<pl>") if t not in names else names[t], tr) for t, tr in facts), act))
         protos[cls] = p
         locs[cls] = f
         # recomputation must follow every match call
